@@ -17,16 +17,19 @@
 EXTENDS RunSem, IOUtils
 
 Trace == JsonDeserialize(IOEnv.TRACE_FILE)
-VARIABLES i, cfg, s, k, seen
-vars == <<i, cfg, s, k, seen>>
+VARIABLES i, cfg, s, k, seen, kreq
+vars == <<i, cfg, s, k, seen, kreq>>
 NoCfg == [n |-> 1, bufIn |-> TRUE, reset |-> FALSE, yor |-> FALSE, kind |-> "fr", m |-> 0, pv |-> FALSE, take |-> 0]
-Init == i = 1 /\ cfg = NoCfg /\ s = S0 /\ k = 0 /\ seen = <<>>
+Init == i = 1 /\ cfg = NoCfg /\ s = S0 /\ k = 0 /\ seen = <<>> /\ kreq = 0
 
-New(r) == /\ r.e = "new" /\ cfg' = r.cfg /\ s' = S0 /\ k' = 0 /\ seen' = <<>>
+\* the contents carried by the first result of every element request, concatenated
+RECURSIVE Firsts(_)
+Firsts(res) == IF res = <<>> THEN <<>> ELSE (IF Head(res).i = 1 THEN Head(res).p ELSE <<>>) \o Firsts(Tail(res))
+New(r) == /\ r.e = "new" /\ cfg' = r.cfg /\ s' = S0 /\ k' = 0 /\ seen' = <<>> /\ kreq' = 0
 \* every value reaches the element at most once and in order
 FillEv(r) == /\ r.e = "f" /\ s' = FillStep(cfg, s, k) /\ k' = k + 1
              /\ seen' = seen \o r.log /\ IsPrefix(seen', Iota(k'))
-             /\ UNCHANGED cfg
+             /\ UNCHANGED <<cfg, kreq>>
 \* the results are those of the specification (yield_on_remainder off); with yield_on_remainder
 \* every value filled so far has reached the element
 ReqEv(r) == /\ r.e = "r"
@@ -35,13 +38,16 @@ ReqEv(r) == /\ r.e = "r"
                /\ ~cfg.yor => r.res = q.res
             /\ seen' = seen \o r.log /\ IsPrefix(seen', Iota(k))
             /\ cfg.yor => seen' = Iota(k)
+            \* with yield_on_remainder and reset every value filled since the last request is in exactly one result
+            /\ (cfg.yor /\ cfg.reset /\ cfg.m \in 1..3) => Firsts(r.res) = [j \in 1..(k - kreq) |-> kreq + j - 1]
+            /\ kreq' = k
             /\ UNCHANGED <<cfg, k>>
 Whole(r) == /\ \/ r.e = "run" /\ r.out = RunSem(r.cfg, Iota(r.N))
                \/ /\ r.e = "split"
                   /\ ~r.cfg.yor => r.out = SplitAround(r.cfg, Iota(r.N), r.bs)
                   /\ r.cfg.yor => r.nf = r.N
                \/ r.e = "seq" /\ r.out = FRSeqRun(r.cfg, Iota(r.N), r.n2, r.oyor)
-            /\ UNCHANGED <<cfg, s, k, seen>>
+            /\ UNCHANGED <<cfg, s, k, seen, kreq>>
 Next == /\ i <= Len(Trace) /\ i' = i + 1
         /\ LET r == Trace[i] IN New(r) \/ FillEv(r) \/ ReqEv(r) \/ Whole(r)
 Spec == Init /\ [][Next]_vars
